@@ -285,6 +285,12 @@ static size_t do_norm(int gen, bool compose, const char* str, char* norm) {
         e.out.assign(out.begin(), out.end());
         memcpy(norm, out.c_str(), out.size() + 1);
         ret = out.size();
+        // a normaliser that, like snprintf, reports the untruncated length (only where the library tolerates it:
+        // assertions compiled out, decoding entry points)
+        if (E.norm_full_len && !compose && rec->op.kind != OP_CRYPT) {
+            size_t full = model::nfkd_raw(in).size();
+            if (full > ret) { ret = full; E.stats.add("fault_normaliser_reports_untruncated_length"); }
+        }
     });
     return ret;
 }
@@ -299,6 +305,7 @@ static u64 do_time(int gen, bool via_libc) {
         for (auto& x : rec->ev) if (&x != &e && (x.kind == EV_TIME || x.kind == EV_LIBC_TIME)) ++k;
         const std::vector<u64>& c = rec->op.clock;
         r = c.empty() ? DEFAULT_CLOCK : c[k < c.size() ? k : c.size() - 1];
+        if (e.stale) r = (r ^ 0x2A5A5A5A5Aull) + 977 * 2629746ull;      // a retired or misplaced clock is a different clock: it tells a different time
         e.reading = r;
     });
     return r;
